@@ -19,7 +19,9 @@ RULE = (
     "tuple component, comparison operand, chained (value reused after coercion)}; the actual-typed expression is a "
     "parameter, a call result or an arithmetic expression (thorough adds more shapes and all operators). Each program "
     "goes through the REAL check(); accepted ones are lowered by the real compiler and the arithmetic/conversion ops are "
-    "read from the Hugr. non-trivial = off-diagonal pair; distinct by canonical case. The space of kind pairs is finite "
+    "read from the Hugr. PLUS non-widening neighbours (oracle only): bool (variable, literals, comparison, not), str, None, angle, tuple and the "
+    "narrowing numeric pairs as actual types against nat/int/float/bool/angle in 10 positions (assignment, return, argument, tuple/array element, "
+    "struct field, both operand sides, aug-assign, comptime argument): must all be rejected. non-trivial = off-diagonal pair; distinct by canonical case. The space of kind pairs is finite "
     "and covered exhaustively in both tiers."
 )
 ASSUMPTIONS = [
@@ -317,18 +319,80 @@ def tie(ctx):
     if kind != "ok":
         ctx.violation("call-result-not-widened:comptime:int->float",
                       "widening use rejected: comptime(1) where float is expected is a type mismatch", {"source": src})
-    # extra: bool is never implicitly coerced to a numeric type and vice versa (outside the model; oracle only)
+    _tie_neighbours(ctx)
+
+
+# ------------------------------------------------------------------ non-widening neighbours (oracle only)
+NEIGHBOUR_ACTUALS = {   # actual type -> (parameter annotation or None, expressions of that type: variable `b`, literals, compound)
+    "bool": ("bool", ["b", "True", "False", "(b == b)", "not b"]),
+    "str": ("str", ["b", '"s"']),
+    "none": (None, ["None"]),
+    "angle": ("angle", ["b"]),
+    "tuple": ("tuple[int]", ["b", "(1,)"]),
+    "nat": ("nat", ["b"]),
+    "int": ("int", ["b", "-1"]),
+    "float": ("float", ["b", "1.5"]),
+}
+NEIGHBOUR_EXPECTED = ["nat", "int", "float", "bool", "angle"]
+NEIGHBOUR_PRELUDE = "from guppylang.std.angles import angle\n"
+
+
+def _neighbour_progs(pty, x, e):
+    par = f"b: {pty}, " if pty else ""
+    yield "ann", f"@guppy\ndef f({par}a: {e}) -> {e}:\n    v: {e} = {x}\n    return v\n"
+    yield "ret", f"@guppy\ndef f({par}a: {e}) -> {e}:\n    return {x}\n"
+    yield "arg", f"@guppy\ndef g(x: {e}) -> {e}:\n    return x\n\n@guppy\ndef f({par}a: {e}) -> {e}:\n    return g({x})\n"
+    yield "tuple", f"@guppy\ndef f({par}a: {e}) -> tuple[{e}, int]:\n    return ({x}, 2)\n"
+    yield "array", f"@guppy\ndef f({par}a: {e}) -> array[{e}, 2]:\n    return array(a, {x})\n"
+    yield "operand", f"@guppy\ndef f({par}a: {e}) -> {e}:\n    return a + ({x})\n"
+    yield "operand_l", f"@guppy\ndef f({par}a: {e}) -> {e}:\n    return ({x}) * a\n"
+    yield "struct", f"@guppy.struct\nclass P:\n    w: {e}\n    k: int\n\n@guppy\ndef f({par}a: {e}) -> P:\n    return P({x}, 2)\n"
+    yield "comptime", f"@guppy\ndef g(x: {e} @comptime) -> {e}:\n    return x\n\n@guppy\ndef f({par}a: {e}) -> {e}:\n    return g({x})\n"
+    yield "aug", f"@guppy\ndef f({par}a: {e}) -> {e}:\n    a += {x}\n    return a\n"
+
+
+def _tie_neighbours(ctx):
+    """The statement's relation is closed: the ONLY implicit conversions are nat->int, nat->float, int->float.  Every other
+    (actual, expected) pair with actual != expected — bool (variables, literals, comparisons), str, None, angle, tuples, and the
+    narrowing numeric pairs — must be rejected in every position (assignment, return, argument, tuple / array element, struct
+    field, operand, aug-assign, comptime argument).  Oracle only (the Lean model covers the three numeric kinds)."""
     import feed
-    for a, e in (("bool", "int"), ("bool", "nat"), ("bool", "float"), ("int", "bool"), ("float", "bool"), ("nat", "bool")):
-        src = f"@guppy\ndef f(b: {a}) -> {e}:\n    return b\n"
-        m = feed.load(src)
-        try:
-            kind, exc = feed.check_outcome(m.f)
-        finally:
-            feed.unload(m)
-        ctx.count({"extra": "bool", "act": a, "exp": e}, nontrivial=True, kind=f"bool-extra:{kind}")
-        if kind == "ok":
-            ctx.violation(f"input:bool-extra:{a}->{e}", f"implicit conversion {a} -> {e} accepted", {"source": src})
+    n = 0
+    for a, (pty, xs) in NEIGHBOUR_ACTUALS.items():
+        exprs = xs if (a == "bool" or not ctx.quick) else xs[:1]
+        for x in exprs:
+            for e in NEIGHBOUR_EXPECTED:
+                if a == e or (a, e) in WIDENING:
+                    continue
+                if a == "angle" and e == "float":
+                    ops_excluded = ("operand_l",)     # `angle * float` is a declared operator of angle, not a conversion
+                elif a in ("nat", "int", "float") and e == "angle":
+                    ops_excluded = ("operand", "operand_l", "aug")   # `angle * float`, `float * angle`: declared operators
+                else:
+                    ops_excluded = ()
+                for pos, src in _neighbour_progs(pty, x, e):
+                    if pos in ops_excluded:
+                        continue
+                    if pos in ("operand", "operand_l", "aug") and e in ("bool",):
+                        continue   # bool has no arithmetic: rejected for that reason, says nothing about conversions
+                    case = {"neighbour": a, "expr": x, "exp": e, "pos": pos}
+                    try:
+                        m = feed.load(src, prelude=feed.PRELUDE + NEIGHBOUR_PRELUDE)
+                    except BaseException as ex:  # noqa: BLE001
+                        ctx.broke(f"neighbour probe does not load: {case}: {type(ex).__name__}")
+                        continue
+                    try:
+                        kind, exc = feed.check_outcome(m.f)
+                    finally:
+                        feed.unload(m)
+                    n += 1
+                    ctx.count(case, nontrivial=True, kind=f"neighbour:{a}->{e}:{kind}")
+                    if kind == "ok":
+                        line = [l for l in src.strip().splitlines() if x in l][-1].strip()
+                        ctx.violation("input:" + json.dumps(case, sort_keys=True),
+                                      f"implicit conversion outside nat->int->float: a {a} (`{x}`) is accepted where {e} is expected, position {pos}: `{line}`",
+                                      {"neighbour_case": case, "source": src})
+    ctx.extra["neighbour_programs"] = n
 
 
 if __name__ == "__main__":
